@@ -71,6 +71,16 @@ func newCaseBackend(c *Case, kind string, cfg cache.Config) Backend {
 	return b
 }
 
+// normExp maps "no expiration" to the unix epoch whatever the library reports for it (the zero
+// time.Time or time.Unix(0,0)): what ExpireAt returns for a never-expiring entry is not specified.
+func normExp(t time.Time) time.Time {
+	if t.IsZero() || t.UnixNano() == 0 {
+		return time.Unix(0, 0)
+	}
+
+	return t
+}
+
 func normRead(v interface{}, err error) readResult {
 	r := readResult{Val: v, Err: err}
 
@@ -103,7 +113,7 @@ func (b *shardedBE) ExpireAll(ctx context.Context)              { b.c.ExpireAll(
 func (b *shardedBE) DeleteAll(ctx context.Context)              { b.c.DeleteAll(ctx) }
 func (b *shardedBE) Len() int                                   { return b.c.Len() }
 func (b *shardedBE) Walk(fn func(key []byte, val interface{}, exp time.Time) error) (int, error) {
-	return b.c.Walk(func(e cache.Entry) error { return fn(e.Key(), e.Value(), e.ExpireAt()) })
+	return b.c.Walk(func(e cache.Entry) error { return fn(e.Key(), e.Value(), normExp(e.ExpireAt())) })
 }
 func (b *shardedBE) HasLoadStore() bool                { return true }
 func (b *shardedBE) Load(k []byte) (interface{}, bool) { return b.c.Load(k) }
@@ -131,7 +141,7 @@ func (b *syncBE) ExpireAll(ctx context.Context)              { b.c.ExpireAll(ctx
 func (b *syncBE) DeleteAll(ctx context.Context)              { b.c.DeleteAll(ctx) }
 func (b *syncBE) Len() int                                   { return b.c.Len() }
 func (b *syncBE) Walk(fn func(key []byte, val interface{}, exp time.Time) error) (int, error) {
-	return b.c.Walk(func(e cache.Entry) error { return fn(e.Key(), e.Value(), e.ExpireAt()) })
+	return b.c.Walk(func(e cache.Entry) error { return fn(e.Key(), e.Value(), normExp(e.ExpireAt())) })
 }
 func (b *syncBE) HasLoadStore() bool               { return false }
 func (b *syncBE) Load([]byte) (interface{}, bool)  { panic("no Load") }
@@ -184,7 +194,7 @@ func (b *shardedOfBE) ExpireAll(ctx context.Context)              { b.c.ExpireAl
 func (b *shardedOfBE) DeleteAll(ctx context.Context)              { b.c.DeleteAll(ctx) }
 func (b *shardedOfBE) Len() int                                   { return b.c.Len() }
 func (b *shardedOfBE) Walk(fn func(key []byte, val interface{}, exp time.Time) error) (int, error) {
-	return b.c.Walk(func(e cache.EntryOf[string]) error { return fn(e.Key(), e.Value(), e.ExpireAt()) })
+	return b.c.Walk(func(e cache.EntryOf[string]) error { return fn(e.Key(), e.Value(), normExp(e.ExpireAt())) })
 }
 func (b *shardedOfBE) HasLoadStore() bool                { return true }
 func (b *shardedOfBE) Load(k []byte) (interface{}, bool) { return b.c.Load(k) }
